@@ -24,7 +24,7 @@ RULE = ('Generated valid documents (1..4 paragraphs, fields with 0..2 own commen
         'lower case.  Non-trivial: document has >= 2 paragraphs or comments or multi-line values, and >= 1 mutating op.')
 ASSUMPTIONS = ['only the position, line-wholeness and name of the rewritten field text are constrained, never its exact formatting',
                'deleting a field may or may not take the field\'s own comment lines with it (the statement leaves that open); both accepted',
-               'deleting the last field of a paragraph is not generated (an empty paragraph is not a valid document)',
+               'a paragraph is emptied only transiently: deleting its only field is always followed at once by adding a field to it (the dump is still compared byte-for-byte in between; the fresh-parse comparison resumes after the refill)',
                'new multi-line values have continuation lines starting with space/tab and non-blank content']
 ANCHORS = ['debian._deb822_repro.parsing:Deb822ParagraphToStrWrapperMixin.__setitem__',
            'debian._deb822_repro.parsing:Deb822ParagraphToStrWrapperMixin._convert_value_to_str',
@@ -36,9 +36,9 @@ ANCHORS = ['debian._deb822_repro.parsing:Deb822ParagraphToStrWrapperMixin.__seti
            'debian._deb822_repro.parsing:Deb822ValueLineElement.add_newline_if_missing']
 MUST_REACH = ANCHORS[:6]
 FLOORS = {'quick': {'nontrivial': 1500, 'monitors': {'M.step': 8000, 'M.reparse': 8000, 'K4': 5000, 'K5': 5000},
-                    'counters': {'op:set': 1500, 'op:add': 1000, 'op:del': 800, 'add-after-missing-final-newline': 30}},
+                    'counters': {'op:set': 1500, 'op:add': 1000, 'op:del': 500, 'op:del-to-empty': 60, 'add-after-missing-final-newline': 30}},
           'thorough': {'nontrivial': 100000, 'monitors': {'M.step': 500000, 'M.reparse': 500000, 'K4': 300000, 'K5': 300000},
-                       'counters': {'op:set': 100000, 'op:add': 60000, 'op:del': 50000, 'add-after-missing-final-newline': 2000}}}
+                       'counters': {'op:set': 100000, 'op:add': 60000, 'op:del': 35000, 'op:del-to-empty': 4000, 'add-after-missing-final-newline': 2000}}}
 LEVEL_TEXT = ('Runtime monitoring: seeded edit histories on live format-preserving documents; after every operation the dump is '
               'compared byte-for-byte with the layout model outside the edited field, the edited region is checked for '
               'line-wholeness/name/comment hand-over, and a fresh parse plus the live dict view are compared with a list model; '
@@ -125,6 +125,13 @@ def cases(ctx):
                 ops.append(['set', pi, n, new_value(r, ids), r.choice(HOWS)])
             else:
                 if len(names[pi]) < 2:
+                    # transiently EMPTY the paragraph (delete its only field), then refill it at once
+                    if len(names[pi]) == 1 and doc['final_newline'] and r.random() < .6:
+                        n = names[pi][0]
+                        ops.append(['del', pi, n, 'to-empty'])
+                        nn = r.choice(['Refill', 'x-refill', n])
+                        ops.append(['set', pi, nn, new_value(r, ids), r.choice(HOWS)])
+                        names[pi] = [nn]
                     continue
                 n = r.choice(names[pi])
                 names[pi] = [x for x in names[pi] if x != n]
@@ -245,9 +252,10 @@ def run_case(ctx, case):
             else:
                 fields[idx] = newf
         elif kind == 'del':
-            if idx is None or len(fields) < 2:
+            to_empty = len(op) > 3 and op[3] == 'to-empty'
+            if idx is None or (len(fields) < 2 and not to_empty):
                 continue
-            ctx.count('op:del')
+            ctx.count('op:del-to-empty' if to_empty and len(fields) == 1 else 'op:del')
             try:
                 del live[key]
             except Exception as e:
@@ -307,6 +315,12 @@ def _check_views(ctx, step, op, f, paras, model, parse):
         if len(live) != len(p):
             ctx.violation('live-len-differs', 'step %d' % step)
             return False
+    if any(not p for p in model['paras']):
+        # a transiently empty paragraph: the document is not valid at this instant; judged again after the refill
+        if rtdoc.doc_text(model) != after:
+            ctx.violation('harness/model-text-drift', 'step %d %r: model %r dump %r' % (step, op, rtdoc.doc_text(model), after))
+            return False
+        return True
     try:
         re = parse(after.splitlines(keepends=True))
     except Exception as e:
